@@ -371,6 +371,25 @@ pub fn c04_native<G: AffineRepr + 'static>(case: &C04Case, seed: u64) -> Vec<(St
             out.push(("removed round: rejected by batch verification".into(), batch_rejects(&rem)));
         }
     }
+    // a surplus entry in one of the two round lists only, and the two final scalars exchanged
+    {
+        let (pts, scs, ipp) = proof.verif_parts();
+        let (l, r, a, b) = ipp.verif_parts();
+        let extra: G = G::Group::rand(&mut rng).into_affine();
+        for side in 0..2 {
+            let (mut l2, mut r2) = (l.to_vec(), r.to_vec());
+            if side == 0 { l2.push(extra) } else { r2.push(extra) }
+            let t = R1CSProof::verif_from_parts(pts, scs, InnerProductProof::verif_from_parts(l2, r2, a, b));
+            let single = std::panic::catch_unwind(std::panic::AssertUnwindSafe(|| !verify(&t))).unwrap_or(false);
+            let batch = std::panic::catch_unwind(std::panic::AssertUnwindSafe(|| batch_rejects(&t))).unwrap_or(false);
+            out.push((format!("a surplus entry in {} only: rejected (no panic), singly and in a batch", if side == 0 { "L" } else { "R" }), single && batch));
+        }
+        if a != b {
+            let t = R1CSProof::verif_from_parts(pts, scs, InnerProductProof::verif_from_parts(l.to_vec(), r.to_vec(), b, a));
+            out.push(("final scalars a and b exchanged: rejected".into(), !verify(&t)));
+            out.push(("final scalars a and b exchanged: rejected by batch verification".into(), batch_rejects(&t)));
+        }
+    }
     // altered copies whose defects are opposite must not cancel in a batch either
     {
         let (pts, scs, ipp) = proof.verif_parts();
